@@ -65,6 +65,30 @@ CLAIMS = {
    technique="static typestate/path-table rules over go/ssa: height-refresh-before-escape, rebalance-on-return, height convention by constant propagation, rotation decision table with structural rotation classification",
    text="Decides that avl/avl.go is the textbook AVL update: after every child store the node's cached height is recomputed before the node flows upwards, every modified subtree root is returned through rebalance, the empty-subtree height is one less than a leaf's, balance() leans exactly at a difference above one, rebalance maps (outer lean, strict sign of the heavy child's lean) to the four rotations which are recognised by structure, and rotations re-height the demoted node before the promoted one.",
    note="Not decided: the induction from these rules to |lean| <= 1 everywhere and the 1.44 log2 depth bound (needs a height/shape abstract domain with an inductive proof; out of reach)."),
+ "C03": dict(cat="other", sec="4 C03",
+   technique="static pass-table extraction over go/ssa (loops and Range-closures), effect/ownership rules (operands read-only, results fresh), counting-closure tables + the C04 map protocol rules",
+   text="Both Set implementations are read as lists of passes (set enumerated, membership test, polarity, sink) and compared with the definitions of Clone/Intersect/SetDiff/SymDiff/Union (hence with each other); every mutation in the read-only and binary operations is shown to target storage created in the same call and the result to be that storage on every path; Add/Remove/AddSet/RemoveSet change reporting, Range's early stop, the enumeration source of sync2.Set's Len/Slice/String (Map.Range), the constructors and CartesianProduct are decided as tables. The concurrent set's internal layouts are covered through the map protocol rules (map/*).",
+   note="Not decided: element-level equality of results for all operand pairs and histories (follows from the pass table plus Go map / Map.Range semantics, which are assumed, not analysed)."),
+ "C10": dict(cat="other", sec="4 C10",
+   technique="static lock-region / typestate / dataflow rules over go/ssa path summaries (RWMutex modes, goroutine join before unlock, WaitGroup accounting as polynomial equality, loop tables)",
+   text="Decides lock discipline on the subscriber list, that every send on a subscriber channel is covered by the lock region that excludes close (synchronously, or by joining the goroutines before unlocking), that channels do not migrate between PubSub values with different mutexes, WaitGroup accounting, fan-out completeness and order, close/removal pairing, the timeout-or-delivery dichotomy, the error table, the WithOnly filter and Sub/SubBuf. Three genuine violations on the current tree (Pub, PubSlice, WithOnly) are listed in known_findings.json with concrete crashing schedules.",
+   note="Not decided: eventual delivery of Pub/PubSlice, liveness, deadlock freedom (schedules)."),
+ "C11": dict(cat="other", sec="4 C11",
+   technique="static pairing rules over go/ssa paths: paired map writes, partner-from-hit-lookup deletes, eviction table, ownership/escape",
+   text="Every write to one index of the Bimap is shown to be paired on the same path with the matching write to the other (inserts mirrored; deletes paired with the partner's delete or overwrite, the partner coming from a lookup known to have hit); Add decides both collisions on every path and evicts stale entries first; only Add/RemoveForward/RemoveReverse/Clear write the maps and nothing returns them; Clone copies both maps freshly on every path; the views are single lookups.",
+   note="Not decided: the inductive step from paired writes to 'inverse bijections after every history' (an argument over runtime state; immediate for Go maps)."),
+ "C12": dict(cat="other", sec="4 C12",
+   technique="static index-relation checks (polynomial normal forms) and origin (freshness) analysis over go/ssa paths",
+   text="Insert/InsertSlice/Remove/RemoveSlice are decided by the linear relations between growth/shrink amount and shift distance, which slice header the shift writes to, and which positions are written; Concat/Clone/Repeat by the origin of the result (make on every path) and the copy layout; Fill, Reverse and Grow as loop/path tables.",
+   note="Not decided: resulting contents for every (len, cap, index) - depends on append/copy run-time semantics (trusted)."),
+ "C13": dict(cat="other", sec="4 C13",
+   technique="static emitter extraction (guard / counted loop / tail) with polynomial normal forms; sibling comparison; allocation-equals-writes",
+   text="Chunk/Windowed/Pairs and their Func siblings are read as emitters and compared with the definition (start, step, bound, piece expression, tail guard) and with each other; the slice-returning variants are shown to allocate exactly what they write. Every piece is then non-empty, consecutive and their concatenation the input.",
+   note="Uses the lemma that j=0; j<q*size; j+=size runs q times. ceil(n/size) as arithmetic beyond what the normal forms equate is not decided."),
+ "C14": dict(cat="other", sec="4 C14",
+   technique="static effect (read-only inputs), origin (fresh results), def-use (callback result used), loop-direction and per-function path tables over go/ssa",
+   text="For the functional helpers the handful of path rows is the definition: early-exit tables (Index*, Contains*, Any, All, maps.KeyOf/ContainsValue/HasKey), Map/MapErr/Filter/Distinct*/Except* rows, Fold/FoldReverse accumulator threading and direction, GroupBy/CountBy bookkeeping, TryGet/SafeGet*/Last/Trim*, maps.Keys/Values/Clear; plus, for all of them, inputs are only read, promised-new results come from make/append-to-fresh on every path, and callback results are used. The loop-direction rule runs over the whole tree.",
+   note="Not decided: equality with the definitions for all inputs beyond these tables (for GroupBy/CountBy/Distinct they are necessary bookkeeping conditions)."),
 }
 
 checks, na = [], []
